@@ -276,6 +276,11 @@ class ListWithAdjustments(object):
       assert self.count_range(begin, end) > 0
       min_key, max_key = self._find_sparse_enough_range(begin, end)
       self._adjust_range(min_key, max_key)
+      # The neighbours may have been relabeled too (and a new key may now equal one of their old
+      # keys), so look them up again before checking the result.
+      if index > 0:
+        begin = self._adj_get_key(index - 1)
+      end = self._adj_get_key(index) if index < len(self._orig_list) else max_key
       assert is_valid_range(begin, self._insertions.irange(begin, end), end)
 
   def _find_sparse_enough_range(self, begin, end):
